@@ -254,9 +254,34 @@ def generate(ntraces: int, seed: int, nsteps: int = 12, row_share: float = 0.25,
     return [t for t in traces if t]
 
 
+READ_DEPTH = {"size": 1, "matrix": 2, "widths": 1, "vals": 2, "cells": 2, "rows": 2, "rowvals": 2, "colvals": 2,
+              "colcells": 2, "traverse": 2, "columns": 1}
+
+
+def sanitize(traces: list) -> list:
+    """Drop (and report) recorded answers whose shape TLC could not compare;
+    returns verdict-like records for them (see common.shape_ok)."""
+    from .common import shape_ok
+
+    out = []
+    for ti, tr in enumerate(traces):
+        for li, ev in enumerate(tr):
+            for side in ("live", "fresh"):
+                if side in ev and isinstance(ev[side], dict):
+                    for k in list(ev[side]):
+                        if not shape_ok(ev[side][k], READ_DEPTH.get(k, 2)):
+                            out.append({"tid": ti + 1, "l": li + 1, "clause": side, "what": k + ":malformed"})
+                            del ev[side][k]
+                elif side in ev and ev["kind"] == "row" and not shape_ok(ev[side], 1):
+                    out.append({"tid": ti + 1, "l": li + 1, "clause": side, "what": "row:malformed"})
+                    del ev[side]
+    return out
+
+
 def validate(traces: list, timeout: int = 1200):
     """Run TLC on GridTrace.tla over the recorded traces.
     Returns (TlcResult, verdict list)."""
+    malformed = sanitize(traces)
     fd, path = tempfile.mkstemp(prefix="verif_traces_", suffix=".json")
     try:
         with os.fdopen(fd, "w") as f:
@@ -269,4 +294,6 @@ def validate(traces: list, timeout: int = 1200):
     for p in res.printed:
         if isinstance(p, dict) and "verdicts" in p:
             verdicts = p
+    if verdicts is not None:
+        verdicts["verdicts"] = list(verdicts["verdicts"]) + malformed
     return res, verdicts
